@@ -42,6 +42,9 @@ func normalizeInvoiceTax(inv *bill.Invoice) {
 		return
 	}
 	addr := inv.Supplier.Addresses[0]
+	if addr == nil {
+		return
+	}
 	// Take a set of different names for the same region and attempt
 	// to use them to set the region code automatically.
 	switch strings.ToLower(addr.Region) {
